@@ -56,12 +56,12 @@ def main():
             if ' fn ' not in (' ' + e['item']) and 'macro_rules' not in e['item']:
                 continue
             lo, hi = [int(x) for x in e['lines'].split('-')]
-            sl = [re.search(r'slice \[lines (\d+)-(\d+)\]', a) for a in e.get('applications', [])]
+            sl = [re.search(r'slice \[lines (\d+)-(\d+)\].*?-> `(?:pub )?(?:async )?fn (\w+)', a) for a in e.get('applications', [])]
             sl = [m for m in sl if m]
             label = e['item'].split(' :: ')[-1].replace('fn ', '')
             if sl:
                 for m in sl:
-                    ext.append((n, u.header['properties'], e['file'], int(m.group(1)), int(m.group(2)), label + ' (slice)', True))
+                    ext.append((n, u.header['properties'], e['file'], int(m.group(1)), int(m.group(2)), label + ' (slice `%s`)' % m.group(3), True))
             else:
                 ext.append((n, u.header['properties'], e['file'], lo, hi, label, False))
     rows = []
@@ -94,6 +94,19 @@ def main():
                 if h not in seen:
                     seen.append(h)
             rows.append({'property': p['id'], 'bullet': k, 'mechanism': mech['name'], 'where': mech['where'], 'under_contract': seen})
+    if '--write' in sys.argv:
+        out = ['| property | # | mechanism (as listed in the property) | contracted functions / statement slices inside it |', '|---|---|---|---|']
+        for r in rows:
+            uc = '; '.join(r['under_contract'])
+            out.append('| %s | %d | %s | %s |' % (r['property'], r['bullet'], r['mechanism'].replace('|', '\\|')[:170], uc or '**none**'))
+        none = [r for r in rows if not r['under_contract']]
+        out.append('')
+        out.append('%d mechanism bullets; %d have at least one contracted function or slice inside them, %d have none (%s).' % (len(rows), len(rows) - len(none), len(none), ', '.join('%s #%d' % (r['property'], r['bullet']) for r in none)))
+        d = open('/verif/DESIGN.md').read()
+        a, b = d.index('<!-- MECH_TABLE_BEGIN -->'), d.index('<!-- MECH_TABLE_END -->')
+        d = d[:a] + '<!-- MECH_TABLE_BEGIN -->\n' + '\n'.join(out) + '\n' + d[b:]
+        open('/verif/DESIGN.md', 'w').write(d)
+        return
     if '--json' in sys.argv:
         json.dump(rows, sys.stdout, indent=1)
         return
